@@ -56,6 +56,7 @@ func OperandValues() []any {
 		int64(0), int64(1), int64(-1), int64(2), int64(-2), int64(7),
 		int64(1) << 53, -(int64(1) << 53), int64(1)<<53 + 1, -(int64(1)<<53 + 1), int64(math.MaxInt64), int64(math.MinInt64),
 		0.0, math.Copysign(0, -1), 0.5, -2.5, float64(int64(1) << 53), 1e308, math.Inf(1), math.NaN(), 9223372036854775808.0, -9223372036854775808.0,
+		5e-324, -1e-310, 2.2250738585072014e-308, // subnormals and the smallest normal float: non-zero divisors
 		"", "a", "ab", "1", "a\U0001F600",
 		[]any{}, []any{int64(1)}, []any{1.0}, []any{"a"}, []any{nil},
 		map[string]any{}, map[string]any{"a": int64(1)}, map[string]any{"a": nil}, map[string]any{"b": int64(7)}, map[string]any{"a": nil, "k": int64(1)}, map[string]any{"b": nil, "k": int64(1)},
